@@ -2,6 +2,8 @@
 from .. import matrix, witness
 from ..rules import sets
 
+from ..rules import round5
+
 
 def const_view_witnesses():
     w = witness.Witnesses('c03', ['<amc/flatset.hpp>', '<amc/smallvector.hpp>', '<amc/fixedcapacityvector.hpp>', '<vector>', '<set>', '<type_traits>', '<utility>'])
@@ -56,9 +58,11 @@ def run(tier, runner):
     r_search.require(10, 'lookup members')
     r_np = sets.node_pos(progs)
     r_np.findings = [f for f in r_np.findings if 'FlatSet' in f.key]
+    r_eq = round5.eq_elem(progs)
+    r_eq.findings = [f for f in r_eq.findings if 'FlatSet' in f.key]
     return {
-        'results': [r_cmp, r_ci, r_inv, r_stable, r_node, r_nm, r_np, r_search, r_mo] + r_w,
-        'explanation': 'NODE-POS: insert(node) reports the position of the insertion it performed on every path, refused or not.  C03 as stated (same elements / results as std::set over histories) is not decided.  Decided structural clauses: CMP-INIT - a comparator (or set) given to a constructor is the one stored, swap exchanges comparator and elements together; CMP-OBJ - every '
+        'results': [r_cmp, r_ci, r_inv, r_stable, r_node, r_nm, r_np, r_search, r_mo, r_eq] + r_w,
+        'explanation': 'EQ-ELEM: operator== never consults the ordering comparator.  NODE-POS: insert(node) reports the position of the insertion it performed on every path, refused or not.  C03 as stated (same elements / results as std::set over histories) is not decided.  Decided structural clauses: CMP-INIT - a comparator (or set) given to a constructor is the one stored, swap exchanges comparator and elements together; CMP-OBJ - every '
                        'ordering or equivalence decision uses the stored comparator object (no default-constructed temporary); SORT-INV - every bulk '
                        'writer fed with caller data re-establishes sorted+unique (stable sort, merge when appending, duplicate removal) before returning; '
                        'STABLE - the first inserted of equivalent elements survives; NODE / NODE-MOVE - insert(node) empties the node only if the insertion happened, and its value is moved from only where the insertion happens (never into a temporary built before the lookup); '
